@@ -302,10 +302,43 @@ impl Cli {
             None
         };
         let query_pad = query_pad || (c.q != Q::SE && g.n == 0);
-        let args = base_args(c, &file.to_string_lossy(), arg_label, &fake);
+        // one good case in eleven hands the instance over through a named pipe: a readable file whose
+        // metadata say nothing about its length and that can be read once, from start to end
+        let mut feeder: Option<std::process::Child> = None;
+        let mut file_arg = file.to_string_lossy().to_string();
+        if c.case_mask % 11 == 5 {
+            let fifo = fake.dir.join(if c.apx { "instance-pipe.apx" } else { "instance-pipe.af" });
+            let _ = std::fs::remove_file(&fifo);
+            let made = std::process::Command::new("mkfifo").arg(&fifo).stderr(std::process::Stdio::null()).status().map(|s| s.success()).unwrap_or(false);
+            if made {
+                feeder = std::process::Command::new("sh")
+                    .arg("-c")
+                    .arg("exec cat \"$1\" > \"$2\"")
+                    .arg("sh")
+                    .arg(&file)
+                    .arg(&fifo)
+                    .stdin(std::process::Stdio::null())
+                    .stderr(std::process::Stdio::null())
+                    .spawn()
+                    .ok();
+                if feeder.is_some() {
+                    file_arg = fifo.to_string_lossy().to_string();
+                    rec.class("instance-through-a-named-pipe");
+                }
+            }
+        }
+        let args = base_args(c, &file_arg, arg_label, &fake);
         let bin = if c.tool == 0 { &solve_bin } else { &iccma_bin };
         rec.eval();
         let out = run_cli(bin, &args, Duration::from_secs(120));
+        if let Some(mut f) = feeder {
+            // the feeder ends when the tool has read (or refused to open) the pipe; do not leave it behind
+            if !matches!(f.try_wait(), Ok(Some(_))) {
+                let _ = f.kill();
+            }
+            let _ = f.wait();
+            let _ = std::fs::remove_file(fake.dir.join(if c.apx { "instance-pipe.apx" } else { "instance-pipe.af" }));
+        }
         if out.timed_out {
             std::panic::panic_any(Inconclusive(format!("CLI timed out: {:?}", args)));
         }
